@@ -161,6 +161,66 @@ func TestVfPool(t *testing.T) {
 		cases++
 	}
 
+	// (2b) the same sequential histories over REAL UDP backends (NewUDPBackend: sockets, Close on removal) instead of doubles:
+	// every backend is a loopback sink, receipt is observed at the sink behind the send (loopback: queued before sendto returns)
+	{
+		g := &vfGamma{base: vfIPBase(), rnd: vfRand(55)}
+		raddr := []string{g.ip("10.0.4.1") + ":5060", g.ip("10.0.4.2") + ":5060", g.ip("10.0.4.3") + ":5060", g.ip("10.0.4.4") + ":5060"}
+		sinks := map[string]*vfSink{}
+		for i, a := range raddr {
+			sinks[a] = vfAllSinks.get(t, g.ip(fmt.Sprintf("10.0.4.%d", i+1)), 5060)
+		}
+		local := g.ip("10.0.0.1") + ":0"
+		nreal := vfEnvInt("VERIF_NREAL", 12)
+		for i := 0; i < nreal; i++ {
+			r.cur = NewRoundRobinBackend()
+			tr.Emit(vfM{"ev": "reset", "case": fmt.Sprintf("realudp%d", i), "seq": true})
+			present := map[string]bool{}
+			n := 10 + rnd.Intn(30)
+			for k := 0; k < n; k++ {
+				a := raddr[rnd.Intn(len(raddr))]
+				x := rnd.Intn(10)
+				var pm string
+				switch {
+				case x < 3 && !present[a]:
+					pm = vfCatch(func() {
+						b, err := NewUDPBackend(local, a)
+						if err != nil {
+							t.Fatalf("VF-INFRA NewUDPBackend: %v", err)
+						}
+						r.cur.AddBackend(b)
+					})
+					present[a] = true
+				case x < 5 && present[a]:
+					pm = vfCatch(func() { r.cur.RemoveBackend(a) })
+					delete(present, a)
+				default:
+					gid := vfGid()
+					vfAllSinks.pollAll()
+					tr.Emit(vfM{"ev": "begin", "g": gid})
+					var err error
+					pm = vfCatch(func() { err = r.cur.Send(r.msg) })
+					if pm == "" {
+						for a2, sk := range sinks {
+							for range sk.poll() {
+								tr.Emit(vfM{"ev": "recv", "g": gid, "a": a2})
+							}
+						}
+						tr.Emit(vfM{"ev": "ret", "g": gid, "ok": err == nil, "idx": r.cur.index})
+					}
+				}
+				if pm != "" {
+					tr.Emit(vfM{"ev": "panic", "g": 0, "msg": pm})
+					break
+				}
+			}
+			for a := range present { // close what is left
+				r.cur.RemoveBackend(a)
+			}
+			cases++
+		}
+	}
+
 	// (3) dispatches racing with membership changes made from another thread
 	nconc := vfEnvInt("VERIF_NCONC", 4)
 	for i := 0; i < nconc && r.nstuck < 3; i++ {
